@@ -327,14 +327,16 @@ def st_tags_of(st, node):
 
 
 def _cond_tags(st, cond_ev):
+    """tags of the value whose *truthiness* was tested (bare name, or len(name)); other predicates
+    (isawaitable(x), x is None ...) say nothing about the value being empty"""
     node = (cond_ev.x or {}).get('node')
     out = set()
     if node is None:
         return out
-    import ast
-    for n in ast.walk(node):
-        if isinstance(n, ast.Name):
-            out |= set(st.env.get(n.id, ()))
+    if isinstance(node, ast.Call) and isinstance(node.func, ast.Name) and node.func.id == 'len' and node.args:
+        node = node.args[0]
+    if isinstance(node, ast.Name):
+        out |= set(st.env.get(node.id, ()))
     return out
 
 
@@ -362,7 +364,7 @@ def check_emit(ctx, R):
         iters = [i for i, e in enumerate(evs) if e.kind == 'ITER']
         md_true = cond_true(evs, len(evs), lambda a: a == 'metadata')
         if md_true:
-            if len(rets) != 1 or rets[0].c is None or 'len(self.downstreams)' not in rets[0].c.replace(' ', ''):
+            if len(rets) != 1 or rets[0].c is None or rets[0].c.replace(' ', '') != 'len(self.downstreams)':
                 bal_ok, bal_detail, bal_line, bal_evs = False, 'up-front retain is not exactly len(self.downstreams) (found %s)' % (
                     [r.c for r in rets]), (rets[0].line if rets else fn.node.lineno), evs
         elif rets:
